@@ -19,7 +19,7 @@ RULE = (
 )
 ASSUMPTIONS = ["the label map of a match_instances call is the one returned by the _match_instances call inside it"]
 MINIMUM = {"C04.checked": 1500, "f:C04.fresh_past_255": 20, "f:C04.fresh_past_65535": 4}
-BUDGET_S = {"quick": 600, "thorough": 900}
+BUDGET_S = {"quick": 1200, "thorough": 900}
 
 TINY = {"t1d4": ((4,), 3, 2), "t2x2": ((2, 2), 3, 2)}
 
